@@ -7,7 +7,7 @@ import os
 import sys
 import traceback
 
-from sa.report import Report, Undecided
+from sa.report import ModelViolation, Report, Undecided
 from sa.source import Sources
 
 
@@ -21,6 +21,8 @@ def run_property(pid, tier, seed, sources=None, write=True, quiet=False):
             mod.thorough(src, rep)
     except Undecided as e:
         rep.undecide(str(e))
+    except ModelViolation as e:
+        rep.violation("R0", e.at, e.construct, e.reason, e.file, e.line, e.witness)
     except Exception as e:  # checker crash -> never a traceback exit 1
         tb = traceback.format_exc().strip().splitlines()
         rep.undecide(f"ANALYSIS-ERROR {type(e).__name__}: {e} @ {tb[-3].strip() if len(tb) > 2 else ''}")
